@@ -1,5 +1,6 @@
 import Ccp.Proofs.IPText
 import Ccp.Proofs.IPSpell
+import Ccp.Proofs.IPRender
 import Ccp.Spec.IP
 /-!
 # C11 — IPv4/IPv6 objects agree with the standard library on every derived value
@@ -415,17 +416,15 @@ example : IP.IsV6Spelling "1:02:003:0004::6:7:8".toList 0x0001000200030004000000
   stdV6Int_sound _ _ (by rfl)
 example : IP.IsV6Spelling "0:0:0:0:0:ffff:255.255.255.255".toList 0xFFFFFFFFFFFF := stdV6Int_sound _ _ (by decide +kernel)
 
-/-- **RFC 5952 canonicity of `str(IPv6Address(n))` — partial.**  Proved, on the zero pattern `zs` of the
-eight printed groups (`zs[i]` ⇔ group `i` prints as `"0"`): if the loop of `_compress_hextets` shortens at all
+/-- **The choice `_compress_hextets` makes, on the zero pattern** (the former `strV6_canonical_partial`,
+statement unchanged; the full theorem is `strV6_canonical` below).  On the zero pattern `zs` of the eight
+printed groups (`zs[i]` ⇔ group `i` prints as `"0"`): if the loop of `_compress_hextets` shortens at all
 it shortens the run `(s, len)` with `shortenedB zs s len` – at least two groups, all zero, no longer zero
 run anywhere, no equally long one further left (RFC 5952 §4.2.1–4.2.3, with bounded quantifiers) – and the
 text is exactly `groups-before :: groups-after`; if it does not shorten, no run of two or more zero groups
 exists and the text is the eight groups joined by colons.  Groups are printed by `'%x'` (lower case, no
-leading zeros: `toHex`).
-Full statement (NOT proved): with `gs := IP.groups n`, `IP.IsShortened gs s l → strV6 n = IP.compressedAt gs s l`
-and `(¬ ∃ s l, IP.IsShortened gs s l) → strV6 n = join ":" (gs.map IP.hexShort)`.  Missing: the two bridges
-`toHex g = IP.hexShort g` (g < 65536) and `shortenedB (zero pattern of gs) s l ↔ IP.IsShortened gs s l`. -/
-theorem strV6_canonical_partial (n : Nat) :
+leading zeros: `toHex`). -/
+theorem strV6_zero_pattern (n : Nat) :
     let X := (hextets n).map toHex
     let zs := X.map (· == ['0'])
     let st := runLoop {} 0 zs
@@ -462,5 +461,183 @@ example : V6.fromStr "::1 64 5".toList = .error .notImplementedError := by rfl
 -- the guard no longer counts surrounding blanks (F33 repaired); 50 characters after normalisation are still refused
 example : (V6.fromStr "   ffff:ffff:ffff:ffff:ffff:ffff:ffff:ffff/128   ".toList).toOption.isSome = true := by rfl
 example : V6.fromStr "ffff:ffff:ffff:ffff:ffff:ffff:ffff:ffff/0000000128".toList = .error .requirementFailure := by rfl
+
+/-! ## RFC 5952: the printed IPv6 text is canonical -/
+
+/-- the two bridges that `strV6_canonical_partial` left open: `'%x' % g` is the RFC 5952 group text, and
+the bounded Boolean statement on the zero pattern is `IP.IsShortened` on the group values -/
+theorem rfc5952_bridges (n : Nat) :
+    (∀ g, g < 65536 → toHex g = IP.hexShort g) ∧ hextets n = IP.groups n ∧
+    (∀ s l, shortenedB (((IP.groups n).map toHex).map (· == ['0'])) s l = true ↔ IP.IsShortened (IP.groups n) s l) :=
+  ⟨toHex_eq_hexShort, hextets_eq_groups n, shortenedB_iff (IP.groups n) (groups_length n) (groups_lt n)⟩
+
+/-- a group text of RFC 5952 (`IP.hexShort`: four hex digits with the leading zeros dropped) is the writing of
+the group in lower-case base 16 without leading zeros (`0` for zero), one to four digits long, and no other
+text is -/
+theorem hexShort_spec (g : Nat) (h : g < 65536) :
+    IP.IsShortest 16 (IP.hexShort g) g ∧ 1 ≤ (IP.hexShort g).length ∧ (IP.hexShort g).length ≤ 4 ∧
+    ∀ t, IP.IsShortest 16 t g → t = IP.hexShort g := by
+  have hs := hexShort_shortest g h
+  have hp := toHex_props g h
+  rw [toHex_eq_hexShort g h] at hp
+  refine ⟨hs, ?_, hp.2.1, fun t ht => isShortest_unique 16 t _ g ht hs⟩
+  cases hx : IP.hexShort g with
+  | nil => exact absurd hx hp.1
+  | cons _ _ => simp
+
+/-- **RFC 5952 canonicity of `str(IPv6Address(n))`** (what `IPv6Obj` prints: `str(o.ip)`, `as_cidr_addr`,
+`as_cidr_net`, `compressed`), for every value `n`: the text is lower-case hex groups without leading zeros
+separated by `:`, with exactly the leftmost longest run of at least two zero groups replaced by `::`, and no
+`::` when there is no such run (`IP.IsRfc5952`, RFC 5952 §4 as written in `Ccp.Spec.IP`). -/
+theorem strV6_canonical (n : Nat) : IP.IsRfc5952 (strV6 n) n := strV6_rfc5952 n
+
+/-- … and for a 128-bit value it re-reads to the same value by the stdlib parser model, i.e. it is one of the
+RFC 4291 spellings of `n` -/
+theorem strV6_canonical_reads (n : Nat) (h : n < 2 ^ 128) :
+    IP.IsRfc5952 (strV6 n) n ∧ stdV6Int (strV6 n) = some n ∧ IP.IsV6Spelling (strV6 n) n :=
+  ⟨strV6_rfc5952 n, stdV6Int_strV6 n h, stdV6Int_sound _ _ (stdV6Int_strV6 n h)⟩
+
+-- non-vacuity: two equally long runs – the left one is taken; a single zero group is never shortened;
+-- a longer run further right wins
+example : strV6 0x00010000000000020000000000030004 = "1:0:0:2::3:4".toList → False := by decide +kernel
+example : strV6 0x00010000000000020000000000030004 = "1::2:0:0:3:4".toList := by decide +kernel
+example : strV6 0x00010000000200030004000500060007 = "1:0:2:3:4:5:6:7".toList := by decide +kernel
+example : strV6 0x00010000000000020000000000000003 = "1:0:0:2::3".toList := by decide +kernel
+
+/-- **RFC 5952 determines the text**: at most one string is the RFC 5952 text of `n` -/
+theorem rfc5952_unique (s t : Str) (n : Nat) (hs : IP.IsRfc5952 s n) (ht : IP.IsRfc5952 t n) : s = t :=
+  rfc5952_unique' s t n hs ht
+
+/-- hence the predicate holds of exactly the printed text -/
+theorem rfc5952_iff (s : Str) (n : Nat) : IP.IsRfc5952 s n ↔ s = strV6 n :=
+  ⟨fun h => rfc5952_unique s _ n h (strV6_rfc5952 n), fun h => h ▸ strV6_rfc5952 n⟩
+
+/-- and the text determines the address: an RFC 5952 text is an RFC 4291 spelling of its value, so no text is
+the canonical text of two different 128-bit values -/
+theorem rfc5952_value_unique (s : Str) (n m : Nat) (hn : n < 2 ^ 128) (hm : m < 2 ^ 128)
+    (h1 : IP.IsRfc5952 s n) (h2 : IP.IsRfc5952 s m) : IP.IsV6Spelling s n ∧ n = m := by
+  have e1 := (rfc5952_iff s n).mp h1
+  have e2 := (rfc5952_iff s m).mp h2
+  have r1 := stdV6Int_strV6 n hn
+  have r2 := stdV6Int_strV6 m hm
+  rw [← e1] at r1
+  rw [← e2] at r2
+  exact ⟨stdV6Int_sound _ _ r1, Option.some.inj (r1.symm.trans r2)⟩
+
+example : IP.IsRfc5952 "::".toList 0 := (rfc5952_iff _ _).mpr (by decide +kernel)
+example : (1 : Nat) < 2 ^ 128 ∧ IP.IsRfc5952 "::1".toList 1 := ⟨by decide, (rfc5952_iff _ _).mpr (by decide +kernel)⟩
+
+/-- `::` appears exactly when two adjacent groups are zero (RFC 5952 §4.2.2: a single zero group is not shortened) -/
+theorem rfc5952_shortens_iff (n : Nat) :
+    (∃ s l, IP.IsShortened (IP.groups n) s l) ↔
+      ∃ i, i + 1 < 8 ∧ (IP.groups n).getD i 1 = 0 ∧ (IP.groups n).getD (i + 1) 1 = 0 :=
+  shortened_iff_adjacent n
+
+/-! ## zero-padded / hex / binary renderings
+
+Read through the positional numerals of `Ccp.Spec.IP`: `IsFixed b w s v` – `s` is exactly `w` lower-case
+base-`b` digits with value `v`; `IsShortest b s v` – `s` is `v` in base `b` without leading zeros. -/
+
+/-- a width, a base and a value leave exactly one text, with or without padding – so the statements below pin
+every rendering down to the character -/
+theorem numeral_unique :
+    (∀ b w s t v, IP.IsFixed b w s v → IP.IsFixed b w t v → s = t) ∧
+    (∀ b s t v, IP.IsShortest b s v → IP.IsShortest b t v → s = t) ∧
+    (∀ b w ts ts' vs, IP.AreFixed b w ts vs → IP.AreFixed b w ts' vs → ts = ts') :=
+  ⟨fun b w s t v => isFixed_unique b w s t v, fun b s t v => isShortest_unique b s t v,
+   fun b w ts ts' vs => areFixed_unique b w ts ts' vs⟩
+
+/-- `str(n)`, `'%x' % n`, `'%b' % n` (for every natural number) are the decimal / lower-case hexadecimal /
+binary writings of `n` without leading zeros -/
+theorem shortest_numerals (n : Nat) :
+    IP.IsShortest 10 (toDec n) n ∧ IP.IsShortest 16 (toHex n) n ∧ IP.IsShortest 2 (toBin n) n :=
+  ⟨toDec_shortest n, toHex_shortest n, toBin_shortest n⟩
+
+/-- **`as_zeropadded` / `as_zeropadded_network`**: four 3-digit decimal groups separated by dots whose values are
+the four octets of the address (resp. of the network address, followed by `/len` with `len` in shortest decimal) -/
+theorem zeropadded_spec (ip len : Nat) (hip : ip < 2 ^ 32) (hlen : len ≤ 32) :
+    ∃ ts ns, V4.asZeropadded (mk4 ip len) = .ok (join ['.'] ts) ∧ IP.AreFixed 10 3 ts (IP.octets ip) ∧
+      V4.asZeropaddedNetwork (mk4 ip len) = .ok (IP.cidr (join ['.'] ns) len) ∧
+      IP.AreFixed 10 3 ns (IP.octets (IP.net 32 ip len)) ∧ IP.IsShortest 10 (toDec len) len := by
+  have hnet : (mk4 ip len).net = IP.net 32 ip len := (v4_values_agree ip len hip hlen).2.2.1
+  refine ⟨(IP.octets ip).map (fun v => padLeft 3 '0' (toDec v)),
+    (IP.octets (IP.net 32 ip len)).map (fun v => padLeft 3 '0' (toDec v)),
+    V4.asZeropadded_mk4 ip len, ?_, ?_, ?_, toDec_shortest len⟩
+  · exact areFixed_map 10 3 _ _ (fun v hv => pad_dec3 v (by have := octets_lt ip v hv; omega))
+  · rw [V4.asZeropaddedNetwork_mk4 ip len (by omega) hlen, hnet]; rfl
+  · exact areFixed_map 10 3 _ _ (fun v hv => pad_dec3 v (by have := octets_lt _ v hv; omega))
+
+-- non-vacuity: 10.1.2.3/24
+example : (V4.asZeropadded (mk4 167838211 24)).toOption = some "010.001.002.003".toList ∧
+    (V4.asZeropaddedNetwork (mk4 167838211 24)).toOption = some "010.001.002.000/24".toList := by
+  constructor <;> decide +kernel
+
+/-- **`as_hex`** (both families): `0x` followed by the address value in lower-case hexadecimal without leading
+zeros (`hex(int)`) -/
+theorem hex_spec :
+    (∀ ip len, ip < 2 ^ 32 → ∃ t, V4.asHex (mk4 ip len) = .ok ('0' :: 'x' :: t) ∧ IP.IsShortest 16 t ip) ∧
+    (∀ ip len, ip < 2 ^ 128 → ∃ t, V6.asHex (mk6 ip len) = .ok ('0' :: 'x' :: t) ∧ IP.IsShortest 16 t ip) :=
+  ⟨fun ip len h => ⟨_, V4.asHex_mk4 ip len (by omega), toHex_shortest ip⟩,
+   fun ip len h => ⟨_, V6.asHex_mk6 ip len h, toHex_shortest ip⟩⟩
+
+/-- **`as_hex_tuple`**: IPv4 – four 2-digit lower-case hex texts whose values are the octets; IPv6 – eight
+4-digit lower-case hex texts whose values are the groups -/
+theorem hex_tuple_spec :
+    (∀ ip len, ∃ ts, V4.asHexTuple (mk4 ip len) = .ok ts ∧ IP.AreFixed 16 2 ts (IP.octets ip)) ∧
+    (∀ ip len, IP.AreFixed 16 4 (V6.asHexTuple (mk6 ip len)) (IP.groups ip)) := by
+  constructor
+  · intro ip len
+    exact ⟨_, V4.asHexTuple_mk4 ip len, areFixed_map 16 2 _ _ (fun v hv => pad_hex2 v (octets_lt ip v hv))⟩
+  · intro ip len
+    rw [V6.asHexTuple_mk6]
+    exact areFixed_map 16 4 _ _ (fun g hg => hex4_fixed g (groups_lt ip g hg))
+
+/-- **`as_binary_tuple`**: IPv4 – four 8-digit binary texts whose values are the octets; IPv6 – eight 16-digit
+binary texts whose values are the groups -/
+theorem binary_spec :
+    (∀ ip len, ∃ ts, V4.asBinaryTuple (mk4 ip len) = .ok ts ∧ IP.AreFixed 2 8 ts (IP.octets ip)) ∧
+    (∀ ip len, ∃ ts, V6.asBinaryTuple (mk6 ip len) = .ok ts ∧ IP.AreFixed 2 16 ts (IP.groups ip)) := by
+  constructor
+  · intro ip len
+    exact ⟨_, V4.asBinaryTuple_mk4 ip len, areFixed_map 2 8 _ _ (fun v hv => pad_bin8 v (octets_lt ip v hv))⟩
+  · intro ip len
+    exact ⟨_, V6.asBinaryTuple_mk6 ip len, areFixed_map 2 16 _ _ (fun g hg => pad_bin16 g (groups_lt ip g hg))⟩
+
+-- non-vacuity: 10.1.2.3 and 2001:db8::1
+example : (V4.asHex (mk4 167838211 24)).toOption = some "0xa010203".toList ∧
+    (V4.asHexTuple (mk4 167838211 24)).toOption = some ["0a".toList, "01".toList, "02".toList, "03".toList] ∧
+    (V4.asBinaryTuple (mk4 167838211 24)).toOption =
+      some ["00001010".toList, "00000001".toList, "00000010".toList, "00000011".toList] ∧
+    (V6.asBinaryTuple (mk6 0x20010db8000000000000000000000001 64)).toOption = some ["0010000000000001".toList,
+      "0000110110111000".toList, "0000000000000000".toList, "0000000000000000".toList, "0000000000000000".toList,
+      "0000000000000000".toList, "0000000000000000".toList, "0000000000000001".toList] := by
+  refine ⟨?_, ?_, ?_, ?_⟩ <;> decide +kernel
+example : IP.IsFixed 10 3 "007".toList 7 ∧ IP.IsShortest 16 "a010203".toList 167838211 ∧ ¬ IP.IsShortest 16 "0a".toList 10 := by
+  refine ⟨⟨by decide, by decide⟩, ⟨by decide, by decide, by decide⟩, fun h => ?_⟩
+  have := h.2.1 (by decide)
+  exact absurd this (by decide)
+
+/-- **the dotted quad and the CIDR texts** (`str(ip)`, `as_cidr_addr`, `as_cidr_net` of `v4_values_agree`): the four
+octets, each in shortest decimal, joined by dots; `/len` appends the prefix length in shortest decimal -/
+theorem dotted_spec (n len : Nat) :
+    IP.dotted n = join ['.'] ((IP.octets n).map toDec) ∧ (∀ v, IP.IsShortest 10 (toDec v) v) ∧
+    ∀ a, IP.cidr a len = a ++ '/' :: toDec len := by
+  refine ⟨?_, toDec_shortest, fun _ => rfl⟩
+  rw [← dotted_eq, ← toBytes4_eq_octets]; rfl
+
+/-- the octets / groups the renderings speak about are the digits of the address in base 256 / 65536: they
+are below the base and add up to the address -/
+theorem octets_groups_value :
+    (∀ ip, ip < 2 ^ 32 → (∀ v ∈ IP.octets ip, v < 256) ∧
+      IP.octets ip = [ip / 256 ^ 3 % 256, ip / 256 ^ 2 % 256, ip / 256 % 256, ip % 256] ∧
+      ip = ((ip / 256 ^ 3 % 256 * 256 + ip / 256 ^ 2 % 256) * 256 + ip / 256 % 256) * 256 + ip % 256) ∧
+    (∀ ip, ip < 2 ^ 128 → (∀ g ∈ IP.groups ip, g < 65536) ∧ IP.groupsVal (IP.groups ip) = ip) := by
+  constructor
+  · intro ip h
+    refine ⟨octets_lt ip, by simp [IP.octets, IP.octet, List.range, List.range.loop], by omega⟩
+  · intro ip h
+    refine ⟨groups_lt ip, ?_⟩
+    simp only [IP.groupsVal, IP.groups, IP.group, List.range, List.range.loop, List.map, List.foldl]
+    omega
 
 end Ccp.C11
